@@ -1,4 +1,123 @@
-(* TEMPORARY stand-alone property file for the numeral part of C03 (the lead folds it into Properties/C03.v). *)
+(* TEMPORARY stand-alone property file for the numeral part of C03 ("all numeral forms ... plus LuaJIT LL/ULL
+   integer suffixes"); the lead folds these statements into Properties/C03.v and deletes this file.
+   Only statements closed by `exact` + Print Assumptions live here. *)
 From Coq Require Import List NArith ZArith Bool.
-From LH Require Import Base.Bytes Base.Res Model.Number Spec.LuaNumeral.
+From LH Require Import Base.Bytes Base.Res Model.Number Spec.LuaNumeral Proofs.NumberSpecProofs Proofs.NumberGo
+  Proofs.NumberProofs.
 Import ListNotations.
+Local Open Scope N_scope.
+
+(* Full statement: on every text the lexer can cut out as a number token, the parser raises "not a number"
+   exactly when the text is not a numeral of the grammar (and it never panics). *)
+Definition C03_number_full : Prop :=
+  forall s, num_lexer_token s = true -> (number_accepted s = true <-> Numeral s).
+
+(* the executable spec used by the correspondence leg is the declarative grammar *)
+Theorem C03_number_spec_exec : forall s v, spec_value s = Some v <-> Denotes s v.
+Proof. exact spec_value_iff. Qed.
+Print Assumptions C03_number_spec_exec.
+
+(* proved part of the full statement: exact classification (node kind and integer value) on every clean text
+   (no white space, no underscore, no leading sign) outside the deviation classes *)
+Theorem C03_number_exact_partial :
+  forall s, num_clean s = true -> num_deviates s = false -> classify_number s = Ok (class_of (spec_value s)).
+Proof. exact number_classify_exact. Qed.
+Print Assumptions C03_number_exact_partial.
+
+Theorem C03_number_ok_iff_partial :
+  forall s, num_clean s = true -> num_deviates s = false -> (number_accepted s = true <-> Numeral s).
+Proof. exact number_ok_iff. Qed.
+Print Assumptions C03_number_ok_iff_partial.
+
+(* valid code is never flagged: every numeral gets the right node, no guard beyond `clean` *)
+Theorem C03_number_complete :
+  forall s v, num_clean s = true -> Denotes s v -> classify_number s = Ok (class_of (Some v)).
+Proof. exact number_numeral_complete. Qed.
+Print Assumptions C03_number_complete.
+
+(* acceptance characterised without guard: the numerals plus the two accepting deviation classes *)
+Theorem C03_number_accepted_exact :
+  forall s, num_clean s = true ->
+    (number_accepted s = true <->
+     Numeral s \/ dev_hex_one_junk (to_lower s) = true \/ dev_hex_cut (to_lower s) = true).
+Proof. exact number_accepted_exact. Qed.
+Print Assumptions C03_number_accepted_exact.
+
+(* parseHexFloat accepts exactly what its regular expression matches, and never panics: its own checks
+   after the regexp are dead code (leg c03.hexfloat compares both with the real regexp engine) *)
+Theorem C03_number_hexfloat_regexp : forall str, parse_hex_float str = Ok (re_hex_float str).
+Proof. exact parse_hex_float_char. Qed.
+Print Assumptions C03_number_hexfloat_regexp.
+
+(* FloatExp exactly for float numerals (needed by C20: Float vs Integer node) *)
+Theorem C03_number_float_iff :
+  forall s, num_clean s = true -> (classify_number s = Ok NumFloat <-> FloatNumeral s).
+Proof. exact number_float_iff. Qed.
+Print Assumptions C03_number_float_iff.
+
+Theorem C03_number_int_iff_partial :
+  forall s v, num_clean s = true -> num_deviates s = false ->
+    (classify_number s = Ok (NumInt v) <-> IntegerNumeral s v).
+Proof. exact number_int_iff. Qed.
+Print Assumptions C03_number_int_iff_partial.
+
+(* no Go panic on lexer tokens (feeds C01) *)
+Theorem C03_number_no_fault_token : forall s, num_lexer_token s = true -> exists c, classify_number s = Ok c.
+Proof. exact number_no_fault_token. Qed.
+Print Assumptions C03_number_no_fault_token.
+
+Theorem C03_number_token_exact_partial :
+  forall s, num_lexer_token s = true -> num_deviates s = false -> classify_number s = Ok (class_of (spec_value s)).
+Proof. exact number_token_exact. Qed.
+Print Assumptions C03_number_token_exact_partial.
+
+(* what the code does on the deviation classes *)
+Theorem C03_number_hex_one_junk_class :
+  forall s, num_clean s = true -> dev_hex_one_junk (to_lower s) = true ->
+    classify_number s = Ok (NumInt 0) /\ spec_value s = None.
+Proof. exact number_hex_one_junk_int0. Qed.
+Print Assumptions C03_number_hex_one_junk_class.
+
+Theorem C03_number_hex_cut_class :
+  forall s, num_clean s = true -> dev_hex_cut (to_lower s) = true -> spec_value s = None ->
+    classify_number s = Ok (NumInt (hex_cut_value (to_lower s))).
+Proof. exact number_hex_cut_int. Qed.
+Print Assumptions C03_number_hex_cut_class.
+
+Theorem C03_number_short_junk_class :
+  forall s, num_clean s = true -> dev_short_junk (to_lower s) = true ->
+    classify_number s = Fault IndexRange /\ spec_value s = None.
+Proof. exact number_short_junk_fault. Qed.
+Print Assumptions C03_number_short_junk_class.
+
+(* refutations of the full statement on the faithful model (witnesses in known_findings) *)
+Theorem C03_number_hex_one_junk_refuted :
+  num_lexer_token w_0x_dot = true /\ classify_number w_0x_dot = Ok (NumInt 0) /\ ~ Numeral w_0x_dot.
+Proof. exact number_hex_one_junk_refuted. Qed.
+Print Assumptions C03_number_hex_one_junk_refuted.
+
+Theorem C03_number_hex_cut_refuted :
+  (num_lexer_token w_dot_0x_cut = true /\ classify_number w_dot_0x_cut = Ok (NumInt 1) /\ ~ Numeral w_dot_0x_cut) /\
+  (num_lexer_token w_0x_dot_cut = true /\ classify_number w_0x_dot_cut = Ok (NumInt 1) /\ ~ Numeral w_0x_dot_cut).
+Proof. exact number_hex_cut_refuted. Qed.
+Print Assumptions C03_number_hex_cut_refuted.
+
+Theorem C03_number_full_refuted : ~ C03_number_full.
+Proof.
+  intros H. destruct number_hex_one_junk_refuted as (Ht & Hc & Hn). apply Hn. apply (H _ Ht).
+  unfold number_accepted. rewrite Hc. reflexivity.
+Qed.
+Print Assumptions C03_number_full_refuted.
+
+(* latent panic (not reachable from lexer tokens, see C03_number_no_fault_token) *)
+Theorem C03_number_no_fault_refuted :
+  (w_x <> [] /\ num_clean w_x = true /\ classify_number w_x = Fault IndexRange) /\
+  (w_plus_ll <> [] /\ classify_number w_plus_ll = Fault IndexRange).
+Proof. exact number_no_fault_refuted. Qed.
+Print Assumptions C03_number_no_fault_refuted.
+
+(* non-vacuity: real numerals of every form satisfy all guards *)
+Example C03_number_guard_inhabited :
+  forallb (fun s => num_lexer_token s && num_clean s && negb (num_deviates s)) w_ok = true /\
+  map classify_number w_ok = [Ok NumFloat; Ok (NumInt (-1)); Ok NumFloat; Ok NumFloat; Ok (NumInt 10); Ok NumFloat].
+Proof. exact number_guard_inhabited. Qed.
